@@ -94,6 +94,11 @@ func TestC01Determinism(t *testing.T) {
 				rec.Discard("invalid-genesis:" + firstWords(ig.Err.Error(), 16))
 				return
 			}
+			var ec chain.ErrEngineContract
+			if errors.As(err, &ec) {
+				rec.Discard("engine-contract-at-genesis:" + chain.Why(ec.Err)) // C10 / C14 report it
+				return
+			}
 			ev.Infra(t, "new sim: %v", err)
 		}
 		cur = sim
